@@ -12,7 +12,7 @@ RULE = ("full matrix handler kind {global function, context function by call, co
         "register_function, register_prefix_op, register_infix_op, register_postfix_op, re-register the running handler's own name} x nesting depth 1-3 x "
         "position (first/middle/last operand); each scenario is one step, <= 40 scenarios per process. distinct class = (handler kind, action, nesting, position)")
 KINDS = ["gfn", "cfn-call", "cfn-bare", "prefix", "infix", "setter", "postfix"]
-ACTIONS = ["parse", "exec_fresh", "exec_same", "lock_ctx", "reg_fn", "reg_prefix", "reg_infix", "reg_postfix", "rereg_self"]
+ACTIONS = ["parse", "exec_fresh", "exec_same", "lock_ctx", "reg_fn", "reg_prefix", "reg_infix", "reg_postfix", "rereg_self", "exec_other_same"]
 
 
 def scenario(i, kind, action, nesting, pos):
@@ -30,6 +30,12 @@ def scenario(i, kind, action, nesting, pos):
         act = {"act": "exec_same", "text": "w = w0 + 1; w2 = w; w2"}
     elif action == "lock_ctx":
         act = {"act": "lock_ctx"}
+    elif action == "exec_other_same":
+        # a second, separate context binds its own function under the running handler's name; the handler evaluates a call of
+        # that name with the same arguments there (a terminating, legitimate "recursion" by name)
+        other = 1000000 + i
+        steps.append({"op": "ctx", "id": other, "vars": {}, "fns": {hname: {"id": hid + 7, "ret": "const", "v": ["n", "7", 0]}}})
+        act = {"act": "exec_shared", "ctx": other, "text": hname if kind == "cfn-bare" else "%s(7)" % hname}
     elif action == "rereg_self":
         reg = {"gfn": "reg_fn", "cfn-call": "reg_fn", "cfn-bare": "reg_fn", "prefix": "reg_prefix", "infix": "reg_infix", "setter": "reg_infix", "postfix": "reg_postfix"}[kind]
         act = {"act": reg, "name": hname, "beh": {"id": hid + 9, "ret": "last"}, "prec": 115, "type": "SETTER" if kind == "setter" else "CALC", "assoc": "LEFT"}
@@ -126,7 +132,9 @@ def check_scenario(rec, follow_rec, exp):
                     bad.append((["registered-in-handler-unusable-in-handler"], "a %s handler registered a new name and at once parsed `%s` (nested parse_expression): got %s, but after the handler returned the same text parses to %s" % (e["k"], exp["then_parse"], json.dumps(r), json.dumps(want))))
             elif r != {"ok": ["n", "10", 0]}:
                 bad.append((["registered-in-handler-unusable-in-handler"], "a %s handler registered a new name and at once evaluated a program using it (nested execute): got %s, expected 10" % (e["k"], json.dumps(r))))
-        if e["act"] in ("exec_fresh", "exec_same") and isinstance(r, dict) and "err" in r:
+        if e["act"] == "exec_shared" and exp["nesting"] == 1 and r != {"ok": ["n", "7", 0]}:
+            bad.append((["reentrant-exec-other-context-wrong"], "execute on a second context (binding its own function under the handler's name) called from a %s handler returned %s, expected 7" % (e["k"], json.dumps(r))))
+        if e["act"] in ("exec_fresh", "exec_same", "exec_shared") and isinstance(r, dict) and "err" in r:
             bad.append((["reentrant-exec-error"], "execute called from a %s handler failed: %s" % (e["k"], r["err"])))
         if e["act"] == "exec_same" and exp["action"] == "exec_same" and exp["nesting"] == 1 and r != {"ok": ["n", "42", 0]}:
             bad.append((["reentrant-exec-same-wrong"], "execute on the same context from a %s handler returned %s, expected 42" % (e["k"], json.dumps(r))))
@@ -156,6 +164,8 @@ def all_scenarios():
             i += 1
     for kind in KINDS:
         for action in ACTIONS:
+            if action == "exec_other_same" and kind not in ("gfn", "cfn-call", "cfn-bare"):
+                continue
             for nesting in (1, 2, 3):
                 for pos in (0, 1, 2):
                     out.append((i, kind, action, nesting, pos))
@@ -267,7 +277,7 @@ def run(rep, tier):
     for part in common.pmap(run_shard, shards):
         rep.merge(part)
     rep.extra["exhaustive"] = True
-    rep.extra["exhaustive_space"] = "7 handler kinds x 9 actions x 3 nesting depths x 3 positions = 567 scenarios + 15 chains of %d nested re-entrant handlers, under both profiles" % DEEP
+    rep.extra["exhaustive_space"] = "7 handler kinds x 9 actions (+ 1 for the 3 function kinds) x 3 nesting depths x 3 positions = 594 scenarios + 15 chains of %d nested re-entrant handlers, under both profiles" % DEEP
     rep.floor = 1000
 
 
